@@ -54,7 +54,18 @@ func ownA(a hcl.Attributes) hcl.Attributes {
 	cp := make(hcl.Attributes, len(a))
 	var first string
 	for k, v := range a {
-		cp[k] = v
+		// the structs a call hands back are the caller's as well: render from
+		// a copy, then overwrite the returned struct's own fields (never what
+		// they point to)
+		if v != nil {
+			c := *v
+			cp[k] = &c
+			v.Name = "callers_own"
+			v.Expr = noExpr
+			v.Range, v.NameRange = hcl.Range{}, hcl.Range{}
+		} else {
+			cp[k] = v
+		}
 		if first == "" || k < first {
 			first = k
 		}
@@ -70,11 +81,49 @@ func ownC(c *hcl.BodyContent) *hcl.BodyContent {
 	if c == nil {
 		return nil
 	}
-	cp := &hcl.BodyContent{Attributes: ownA(c.Attributes), Blocks: append(hcl.Blocks(nil), c.Blocks...), MissingItemRange: c.MissingItemRange}
+	cp := &hcl.BodyContent{Attributes: ownA(c.Attributes), MissingItemRange: c.MissingItemRange}
+	for _, bl := range c.Blocks {
+		if bl == nil {
+			cp.Blocks = append(cp.Blocks, nil)
+			continue
+		}
+		b := *bl
+		cp.Blocks = append(cp.Blocks, &b)
+		// e.g. a caller that wraps the block's body for its own evaluation
+		bl.Body = hcl.EmptyBody()
+		bl.Type = "callers_own"
+		bl.Labels, bl.LabelRanges = nil, nil
+		bl.DefRange, bl.TypeRange = hcl.Range{}, hcl.Range{}
+	}
 	for i, j := 0, len(c.Blocks)-1; i < j; i, j = i+1, j-1 {
 		c.Blocks[i], c.Blocks[j] = c.Blocks[j], c.Blocks[i]
 	}
 	return cp
+}
+
+// ownSchema renders a schema a call returned and then extends it, as a caller
+// does that adds its own arguments to what a struct implies.
+func ownSchema(s *hcl.BodySchema) func() string {
+	if s == nil {
+		return func() string { return "nil-schema" }
+	}
+	cp := hcl.BodySchema{Attributes: append([]hcl.AttributeSchema(nil), s.Attributes...), Blocks: append([]hcl.BlockHeaderSchema(nil), s.Blocks...)}
+	s.Attributes = append(s.Attributes, hcl.AttributeSchema{Name: "callers_own"})
+	s.Blocks = append(s.Blocks, hcl.BlockHeaderSchema{Type: "callers_own"})
+	if len(s.Attributes) > 1 {
+		s.Attributes[0] = hcl.AttributeSchema{Name: "callers_first", Required: true}
+	}
+	return func() string {
+		var b strings.Builder
+		for _, a := range cp.Attributes {
+			fmt.Fprintf(&b, "%s/%v,", a.Name, a.Required)
+		}
+		b.WriteString("|")
+		for _, x := range cp.Blocks {
+			fmt.Fprintf(&b, "%s%v,", x.Type, x.LabelNames)
+		}
+		return b.String()
+	}
 }
 
 var hexAddr = regexp.MustCompile(`0x[0-9a-fA-F]+`)
@@ -334,6 +383,12 @@ func (w *World) execOp(t int, op OpM) (out func() string) {
 		return func() string { return "expand_vars " + dumpTraversals(tv1) + " | " + dumpTraversals(tv2) }
 	case "gohcl":
 		var g gRoot
+		sch := func() string { return "" }
+		if op.Mask&3 == 0 {
+			is, partial := gohcl.ImpliedBodySchema(&g)
+			rs := ownSchema(is)
+			sch = func() string { return fmt.Sprintf(" schema=%s partial=%v", rs(), partial) }
+		}
 		d := gohcl.DecodeBody(root(), ctx, &g)
 		var ra hcl.Attributes
 		var rd hcl.Diagnostics
@@ -343,7 +398,7 @@ func (w *World) execOp(t int, op OpM) (out func() string) {
 		d = ownD(d)
 		ra = ownA(ra)
 		rd = ownD(rd)
-		return func() string { return "gohcl " + dumpGRoot(&g, ra, rd) + " !" + dumpDiags(d) }
+		return func() string { return "gohcl " + dumpGRoot(&g, ra, rd) + " !" + dumpDiags(d) + sch() }
 	case "gohcl_expr":
 		e, name := w.expr(op.Expr)
 		var v cty.Value
